@@ -15,7 +15,7 @@ RULE = ('(address) Address(...) with each of the 5 value parameters in {absent, 
         'rx_only, both}: pairwise-exhaustive + random (quick) / the full product (thorough); AsymmetricAddress with wrong kinds; compared '
         'with an independent validity predicate written from addressing.rst and with the extracted Coq validation (proved equivalent to the '
         'Spec, C16_address_iff) on the integer-or-None subset; only ValueError may be raised. (params) each key in {absent, valid, boundary, '
-        'invalid value, wrong type}: all pairs + random dictionaries, compared with a reference predicate written from the parameter '
+        'invalid value, wrong type}: all pairs + the triple tx_data_length x rate_limit_max_bitrate x rate_limit_window_size swept around the one-frame-per-window boundary for every link-layer size (with can_fd / rate_limit_enable absent, on, off) + random dictionaries, compared with a reference predicate written from the parameter '
         'documentation and with the extracted Coq Params.validate (C16_params_iff). (run) every accepted configuration is driven with '
         'payloads and random traffic: no exception may escape process(), send() raises at most ValueError.'
         ' (set_address) sequences of set_address() with fully defined, partial and non-address arguments on a live layer: accepted exactly for fully defined addresses, a refused one leaves the layer working on the last accepted address, no other exception escapes.')
@@ -333,6 +333,23 @@ def run_shard(campaign, shard, nshards, seed, tier):
                         if vb is None:
                             over[b] = None
                     check_params(part, m, over, campaign, rng, drive=(k % 5 == 0))
+        # the one constraint that relates three parameters: a window of the rate limiter must carry one frame of tx_data_length bytes
+        # (whatever can_fd and rate_limit_enable say) - swept around the boundary for every link-layer size
+        k = 0
+        for tdl in LLS:
+            for br in (1, 63, 64, 65, tdl * 8 - 1, tdl * 8, tdl * 8 + 1, tdl * 4 - 1, tdl * 4, tdl * 16, tdl * 32 - 1, tdl * 32):
+                for w in (0.25, 0.5, 1, 1.0, 2.0):
+                    for fd in (None, True, False):
+                        for en in (None, True):
+                            k += 1
+                            if k % nshards != shard:
+                                continue
+                            over = {'tx_data_length': tdl, 'rate_limit_max_bitrate': br, 'rate_limit_window_size': w}
+                            if fd is not None:
+                                over['can_fd'] = fd
+                            if en is not None:
+                                over['rate_limit_enable'] = en
+                            check_params(part, m, over, campaign, rng, drive=(k % 50 == 0))
         for _ in range((300 if quick else 20000) // nshards + 1):
             over = {x: rng.choice(PVALS[x]) for x in PKEYS if rng.random() < 0.3}
             # mostly valid dictionaries with one or two deviations
